@@ -445,11 +445,22 @@ REWRITING_CALLS = {
 }
 NARROWING_METHODS = {'strip', 'lstrip', 'rstrip', 'split', 'rsplit', 'partition', 'rpartition', 'splitlines', 'lower', 'upper',
                      'casefold', 'title', 'capitalize', 'swapcase', 'removeprefix', 'removesuffix'}
+# methods of a str whose result is not text (what is done with a position is judged where the text is sliced)
+QUERY_METHODS = {'find', 'rfind', 'index', 'rindex', 'count', 'startswith', 'endswith', 'isdigit', 'isdecimal', 'isnumeric', 'isalpha',
+                 'isalnum', 'isascii', 'isspace', 'isupper', 'islower', 'istitle', 'isidentifier', 'isprintable'}
 REWRITING_METHODS = {'replace', 'translate', 'encode', 'decode', 'format', 'join', 'expandtabs', 'zfill', 'ljust', 'rjust', 'center'}
 # classes no str is an instance of (an isinstance-true edge leaves the str domain)
 DISJOINT_FROM_STR = {'os.PathLike', 'pathlib.Path', 'pathlib.PurePath', 'pathlib.PurePosixPath', 'pathlib.PosixPath',
                      'pathlib.PureWindowsPath', 'pathlib.WindowsPath', 'builtins.bytes', 'builtins.bytearray', 'builtins.memoryview'}
 _TYPEISH = {'builtins.isinstance', 'builtins.type', 'builtins.hasattr', 'builtins.issubclass', 'builtins.callable', 'builtins.getattr'}
+
+
+SPLIT_METHODS = ('partition', 'rpartition', 'split', 'rsplit')
+
+
+def is_split_call(e) -> bool:
+    """`<x>.partition(...)` / rpartition / split / rsplit: every item of the result is a contiguous piece of x."""
+    return isinstance(e, ast.Call) and isinstance(e.func, ast.Attribute) and e.func.attr in SPLIT_METHODS
 
 
 class Origin:
@@ -493,10 +504,15 @@ class Provenance:
     `hasattr(v, '__fspath__')` true) are outside the str domain and skipped.
     Everything else that touches the tracked value is UnknownIdiom."""
 
-    def __init__(self, p: Project, f: Func, param: Optional[str], depth: int = 0, root_local: Optional[str] = None):
+    def __init__(self, p: Project, f: Func, param: Optional[str], depth: int = 0, root_local: Optional[str] = None,
+                 unpack_pieces: bool = False):
         """Track the parameter `param`, or (root_local) every read of that local
-        as it stands, whatever defined it."""
+        as it stands, whatever defined it.  unpack_pieces: read
+        `a, _, b = <text>.partition(sep)` (rpartition/split/rsplit) - each target
+        is then the split result (a 'narrow' step whose node is the call);
+        without it such a binding is UnknownIdiom, as before."""
         self.p, self.f, self.param, self.depth, self.root_local = p, f, param, depth, root_local
+        self.unpack_pieces = unpack_pieces
         if (param is None) == (root_local is None):
             raise ValueError('exactly one of param / root_local')
         if param is not None and param not in f.params():
@@ -593,6 +609,10 @@ class Provenance:
                 r = inner.step('rewrite', d.value, 'augmented assignment') if inner.derived else Origin()
             elif d.kind == 'import':
                 r = Origin()
+            elif d.kind == 'unpack' and self.unpack_pieces and is_split_call(d.value):
+                r = self.classify(d.value, d.node)
+            elif d.kind == 'unpack' and self.unpack_pieces and self.unpacked_item(d) is not None:
+                r = self.classify(self.unpacked_item(d), d.node)      # a, b = x, y
             else:
                 src = self.classify_any(d.value, d.node) if d.value is not None else Origin()
                 if src.derived:
@@ -602,6 +622,24 @@ class Provenance:
             self._active.discard(d.idx)
         self._memo[d.idx] = r
         return r
+
+    def unpacked_item(self, d: Def):
+        """`a, b = x, y` (two displays of the same length, nothing starred): the expression bound to d.name."""
+        st = self.cfg.node(d.node).ast
+        if not isinstance(st, ast.Assign) or not isinstance(st.value, (ast.Tuple, ast.List)):
+            return None
+        found = None
+        for t in st.targets:
+            if isinstance(t, (ast.Tuple, ast.List)) and len(t.elts) == len(st.value.elts) \
+                    and not any(isinstance(x, ast.Starred) for x in list(t.elts) + list(st.value.elts)):
+                for te, ve in zip(t.elts, st.value.elts):
+                    if isinstance(te, ast.Name) and te.id == d.name:
+                        if found is not None:
+                            return None
+                        found = ve
+            elif any(isinstance(x, ast.Name) and x.id == d.name for x in ast.walk(t)):
+                return None
+        return found
 
     def classify_any(self, e, nid: int) -> Origin:
         """Does anything inside e derive from the parameter (no judgement of the shape)?"""
@@ -713,6 +751,8 @@ class Provenance:
                     return recv.step('narrow', c, 'PurePath.%s: %s' % (fn.attr, PATH_NARROWING_METHODS[fn.attr]))
                 raise UnknownIdiom('%s: method %s of a path object built from the tracked value is not in the tables' % (self.f.qual, short(c)))
             if recv is not None and recv.derived:
+                if fn.attr in QUERY_METHODS:
+                    return Origin()       # a position / a count / a bool: not text
                 if fn.attr in NARROWING_METHODS:
                     return recv.step('narrow', c, 'str.%s is not the identity' % fn.attr)
                 if fn.attr in REWRITING_METHODS:
